@@ -333,6 +333,7 @@ def run(chk, repo, tier):
     run_more(chk, repo)
     run_z10_z11(chk, repo)
     run_z12_z14(chk, repo)
+    run_z15_z17(chk, repo)
 
 
 def run_more(chk, repo):
@@ -556,3 +557,97 @@ def run_z12_z14(chk, repo):
                                   'early')
     if found == 0:
         raise AnalysisError('Z14: handling of the appended columns not found in parse_table_columns')
+
+
+def run_z15_z17(chk, repo):
+    """Z15: a Series that holds DataFrames is encoded element-wise also when it has ONE element; Z16: rows of the residual table
+    are observation rows iff at least one residual is non-zero; Z17: when the ext file has no standard errors of the sd/corr
+    form, the covariance step counts as aborted (cov/cor/coi are not reported next to NaN standard errors)"""
+    from sa import iterspace as IS
+    from sa import reach
+    Z15 = chk.rule('Z15', 'ResultsJSONEncoder: the Series-of-DataFrames case includes size 1', floor=1)
+    wm = repo.module('pharmpy.workflows.results')
+    enc = wm.classes.get('ResultsJSONEncoder')
+    df = enc.methods.get('default') if enc else None
+    if df is None:
+        raise AnalysisError('ResultsJSONEncoder.default not found')
+    n = 0
+    for I in [x for x in ast.walk(df.node) if isinstance(x, ast.If)]:
+        if 'DataFrame' in unparse(I.test) and 'iloc' in unparse(I.test):
+            for c in [x for x in ast.walk(I.test) if isinstance(x, ast.Compare) and 'size' in unparse(x.left) + 'len' in ''
+                      or isinstance(x, ast.Compare) and ('.size' in unparse(x) or 'len(' in unparse(x))]:
+                n += 1
+                key = unparse(c.left)
+                try:
+                    res = {k: bool(IS.ev_x(c, {key: k})) for k in (0, 1, 2)}
+                except Exception as ex:
+                    raise AnalysisError(f'Z15: size test not evaluable: {ex}')
+                ok = res == {0: False, 1: True, 2: True}
+                chk.instance(Z15, f'encoder: `{unparse(c)}` for sizes 0, 1, 2: {res}: {ok}')
+                if not ok:
+                    chk.violation(Z15, wm.rel, df.qualname, unparse(c),
+                                  'a Series with exactly one DataFrame takes the generic Series path: the frame is flattened to a '
+                                  'list of dicts', line=c.lineno,
+                                  witness='individual_estimates_covariance of a run with one individual: read_results(to_json) '
+                                          'returns a list instead of a DataFrame')
+    if n == 0:
+        raise AnalysisError('Z15: size test of the Series-of-DataFrames case not found')
+    rm = repo.module('pharmpy.tools.external.nonmem.results')
+    Z16 = chk.rule('Z16', '_parse_residuals keeps a row iff at least one residual column is non-zero', floor=1)
+    f = rm.functions.get('_parse_residuals')
+    if f is None:
+        raise AnalysisError('_parse_residuals not found')
+    n16 = 0
+    for c in ast.walk(f.node):
+        if isinstance(c, ast.Call) and isinstance(c.func, ast.Attribute) and c.func.attr in ('any', 'all') \
+                and any(isinstance(k.value, ast.Constant) and k.value.value == 1 for k in c.keywords if k.arg == 'axis'):
+            cmp_ = next((x for x in ast.walk(c.func.value) if isinstance(x, ast.Compare) and isinstance(x.comparators[0], ast.Constant)
+                         and x.comparators[0].value == 0), None)
+            if cmp_ is None:
+                continue
+            n16 += 1
+            # is the whole selector negated?
+            neg = False
+            for p_ in ast.walk(f.node):
+                if isinstance(p_, ast.UnaryOp) and isinstance(p_.op, (ast.Invert, ast.Not)) and p_.operand is c:
+                    neg = True
+            form = (type(cmp_.ops[0]).__name__, c.func.attr, neg)
+            ok = form in (('NotEq', 'any', False), ('Eq', 'all', True))
+            chk.instance(Z16, f'_parse_residuals: row selector {form} means "some residual is non-zero": {ok}')
+            if not ok:
+                chk.violation(Z16, rm.rel, f.name, unparse(c)[:80],
+                              'an observation whose residual in one column is exactly zero is dropped (or non-observation rows '
+                              'are kept)', line=c.lineno,
+                              witness='DV equal to PRED on one record (RES = 0.0000E+00, CWRES = -0.40): 154 of 155 residual rows')
+    if n16 == 0:
+        raise AnalysisError('Z16: row selector of _parse_residuals not found')
+    Z17 = chk.rule('Z17', '_parse_standard_errors: when the sd/corr standard errors are missing the covariance step is flagged as '
+                          'aborted', floor=1)
+    g = rm.functions.get('_parse_standard_errors')
+    if g is None:
+        raise AnalysisError('_parse_standard_errors not found')
+    cfg = CFG(g.node)
+    n17 = 0
+    for T in [x for x in ast.walk(g.node) if isinstance(x, ast.Try)]:
+        if not any('omega_sigma_se_stdcorr' in unparse(s_) for s_ in T.body):
+            continue
+        for h in T.handlers:
+            rets = [n_ for n_ in cfg.nodes.values() if n_.kind == 'return' and any(n_.ast is x for x in ast.walk(h))]
+            for r in rets:
+                n17 += 1
+                v = r.ast.value
+                last = v.elts[-1] if isinstance(v, ast.Tuple) and v.elts else v
+                e = reach.expand_expr(cfg, r.id, last) if isinstance(last, ast.Name) else last
+                # the value of the flag on this path: its reaching definitions at the return
+                vals = reach.values(cfg, r.id, last.id) if isinstance(last, ast.Name) else [(None, last)]
+                ok = bool(vals) and all(isinstance(val, ast.Constant) and val.value is True for _d, val in vals)
+                chk.instance(Z17, f'_parse_standard_errors: missing sd/corr row -> returns cov_abort = '
+                                  f'{[unparse(val) for _d, val in (vals or [])]}: {ok}')
+                if not ok:
+                    chk.violation(Z17, rm.rel, g.name, unparse(r.ast)[:80],
+                                  'the covariance matrices are read and reported although the standard errors are all NaN',
+                                  line=r.line,
+                                  witness='an ext file with the -1000000001 row but without -1000000005: cov/cor/coi are '
+                                          'reported next to NaN standard errors')
+    if n17 == 0:
+        raise AnalysisError('Z17: handler for the missing sd/corr standard errors not found')
